@@ -16,6 +16,7 @@
 package main
 
 import (
+	"strconv"
 	"fmt"
 	"sort"
 	"strings"
@@ -29,6 +30,9 @@ import (
 )
 
 var markKey = []byte("\xff\xfeflush")
+
+// hiKey prefixes data keys that sort after the flush-ID key
+const hiKey = "\xff\xffk"
 
 // ---- logging disk -------------------------------------------------------------------------------
 
@@ -115,7 +119,7 @@ func (o hop) String() string {
 	case "batch":
 		return fmt.Sprintf("batch(%s:put k1=%s,del k2)", o.DB, o.V)
 	case "bigput":
-		return fmt.Sprintf("bigput(%s,2x60KB)", o.DB)
+		return fmt.Sprintf("bigput(%s,3x60KB around the flush-ID key)", o.DB)
 	case "rbatch":
 		return fmt.Sprintf("reused-batch(%s:reset,put k2=%s,write)", o.DB, o.V)
 	case "drop":
@@ -337,12 +341,14 @@ func runHistory(kind string, h []hop, perms []permChoice) (ops []kv.Op, m *model
 			err = b.Write()
 			m.write(o.DB, "k2", sp(o.V))
 		case "bigput":
-			err = db.Put([]byte("k1"), []byte(big('p')))
-			if err == nil {
-				err = db.Put([]byte("k2"), []byte(big('q')))
+			// one key below the flush-ID key and two above it: the flush of this database is split into two batch
+			// writes (IdealBatchSize = 100KB) with the flush-ID key's position inside the first one
+			for i, k := range []string{"k1", hiKey + "3", hiKey + "4"} {
+				if err == nil {
+					err = db.Put([]byte(k), []byte(big("pqr"[i])))
+				}
+				m.write(o.DB, k, sp(big("pqr"[i])))
 			}
-			m.write(o.DB, "k1", sp(big('p')))
-			m.write(o.DB, "k2", sp(big('q')))
 		case "drop":
 			db.Close()
 			db.Drop()
@@ -370,7 +376,7 @@ func contentsString(c map[string]string) string {
 	sort.Strings(ks)
 	var s []string
 	for _, k := range ks {
-		s = append(s, k+"="+short(c[k]))
+		s = append(s, strings.Trim(strconv.QuoteToASCII(k), "\"")+"="+short(c[k]))
 	}
 	return "{" + strings.Join(s, ",") + "}"
 }
@@ -583,7 +589,7 @@ func main() {
 		c.Set("history_depth", depth)
 		c.Set("map_order_deviation_bound", permDev)
 		c.Sample(map[string]interface{}{"history": hstr(hist[len(hist)/2]), "stacks": []string{"pool", "flagged"}})
-		c.Sample(map[string]interface{}{"history": hstr(bigs[2]), "note": "values of 60KB: one flush of a database is split into several batches"})
+		c.Sample(map[string]interface{}{"history": hstr(bigs[2]), "note": "3 values of 60KB, one key sorting before and two after the flush-ID key: one flush of a database is split into two batch writes"})
 		c.Assume("durable operations are atomic per put / delete / batch write / drop / create, and are never reordered (a crash keeps a prefix of the log)")
 		c.Assume("'every database' in the statement is read as every database that survives on disk; a dropped database may be missing")
 		c.Assume("writes issued to a database between its Drop() and the next flush are discarded by the pool together with the database")
